@@ -41,10 +41,6 @@ class HarnessError(Exception):
     pass
 
 
-class DeserError(Exception):
-    """Raised by the failing-deserializer seam (C07)."""
-
-
 class _Cur:
     world = None
 
@@ -71,51 +67,8 @@ _retry_mod.sleep = _shim.sleep
 
 
 # ---------------------------------------------------------------- serdes
-class JSONSerde:
-    """The example from the Client docstring."""
-
-    def serialize(self, key, value):
-        if isinstance(value, str):
-            return value, 1
-        return json.dumps(value), 2
-
-    def deserialize(self, key, value, flags):
-        if flags == 1:
-            return value
-        if flags == 2:
-            return json.loads(value)
-        raise Exception("Unknown flags for value: {}".format(flags))
-
-
-class FailingSerde:
-    """Inner serde whose deserialize raises when the scenario says so."""
-
-    def __init__(self, inner):
-        self.inner = inner
-
-    def serialize(self, key, value):
-        return self.inner.serialize(key, value)
-
-    def deserialize(self, key, value, flags):
-        w = _Cur.world
-        ctx = w.ctx()
-        n = ctx.kinds["deser"]
-        ctx.kinds["deser"] = n + 1
-        f = ctx.match("deser", n)
-        if f is not None:
-            ctx.fired.append(("deser", n, "deser", -1))
-            w.stats["fault:deser"] += 1
-            raise DeserError("sim: cannot deserialize")
-        return self.inner.deserialize(key, value, flags)
-
-
-class _Plain:
-    def serialize(self, key, value):
-        return value, 0
-
-    def deserialize(self, key, value, flags):
-        return value
-
+from . import userserde as _userserde  # noqa: E402
+from .userserde import JSONSerde, FailingSerde, _Plain, DeserError  # noqa: E402
 
 _CODECS = {
     "zlib": (zlib.compress, zlib.decompress),
@@ -244,9 +197,13 @@ def _is_sim_exc(e):
 def _innermost_file(e):
     tb = e.__traceback__
     fn = None
+    name = None
     while tb is not None:
         fn = tb.tb_frame.f_code.co_filename
+        name = tb.tb_frame.f_code.co_name
         tb = tb.tb_next
+    if isinstance(e, TypeError) and name == "<lambda>" and fn and fn.endswith("engine.py"):
+        return ""     # wrong arity at the public call itself: the library's TypeError, not ours
     return fn or ""
 
 
@@ -269,7 +226,8 @@ def run_call(world, res, step_no, fn, method, faults=None, net=None, hooks=()):
             raise
         if not isinstance(e, Exception) and not _is_sim_exc(e):
             raise
-        if not _is_sim_exc(e) and _innermost_file(e).startswith(SIM_DIR):
+        if not _is_sim_exc(e) and _innermost_file(e).startswith(SIM_DIR) and \
+                not _innermost_file(e).endswith("userserde.py"):
             raise HarnessError("simulator raised %r" % (e,)) from e
         rec.value = None
         rec.exc = e
@@ -330,6 +288,7 @@ def execute(scn, hooks=()):
     wspec = scn["world"]
     world = World(wspec)
     _Cur.world = world
+    _userserde._Cur.world = world
     knobs = wspec.get("knobs") or {}
     _base.RECV_SIZE = knobs.get("recv_size", DEFAULT_RECV_SIZE)
     res = Result()
